@@ -312,6 +312,217 @@ theorem sortVHost_compile_id (c : Ctx) (vs : VirtualService) :
       simp only [hc, Bool.false_eq_true, ↓reduceIte, List.filter_cons, Bool.not_false, List.cons_append]
       rw [ih]
 
+/-! ## Most specific VirtualService host -/
+
+/-- "wildcard host `h` matches `needle`" as `mostSpecificHostWildcardMatch` tests it. -/
+def wcMatches (needle h : String) : Bool := hasSuffixStr needle (mk ((cs h).drop 1))
+
+theorem moreSpecific_false_len (a b : String) (h : moreSpecific a b = false) : a.length ≤ b.length := by
+  unfold moreSpecific at h
+  split at h
+  · rename_i he; simp at he; omega
+  · simpa using h
+
+theorem moreSpecific_true_len (a b : String) (h : moreSpecific a b = true) : b.length ≤ a.length := by
+  unfold moreSpecific at h
+  split at h
+  · rename_i he; simp at he; omega
+  · have : a.length > b.length := by simpa using h
+    omega
+
+/-- Running invariant of the fold: the result is the initial candidate or a matching element, and it
+    is at least as long as every matching element and as the initial candidate. -/
+theorem wildcardMatch_inv (needle : String) (l : List String) (best : Option String) :
+    (wildcardMatch needle l best = none ↔ best = none ∧ ∀ h ∈ l, wcMatches needle h = false)
+    ∧ (∀ x, wildcardMatch needle l best = some x →
+        ((x ∈ l ∧ wcMatches needle x = true) ∨ best = some x)
+        ∧ (∀ h ∈ l, wcMatches needle h = true → h.length ≤ x.length)
+        ∧ (∀ b, best = some b → b.length ≤ x.length)) := by
+  induction l generalizing best with
+  | nil =>
+    simp only [wildcardMatch, List.not_mem_nil, false_implies, implies_true, and_true, false_and, false_or, true_and]
+    intro x hx
+    refine ⟨hx, ?_⟩
+    intro b hb
+    rw [hx] at hb
+    cases hb
+    exact Nat.le_refl _
+  | cons h hs ih =>
+    unfold wildcardMatch
+    by_cases hm : hasSuffixStr needle (mk ((cs h).drop 1)) = true
+    · have hm' : wcMatches needle h = true := hm
+      simp only [hm, ↓reduceIte]
+      cases best with
+      | none =>
+        simp only
+        obtain ⟨i1, i2⟩ := ih (some h)
+        refine ⟨?_, ?_⟩
+        · rw [i1]; simp [hm']
+        · intro x hx
+          obtain ⟨a, b, c⟩ := i2 x hx
+          refine ⟨?_, ?_, ?_⟩
+          · rcases a with ⟨a1, a2⟩ | a
+            · exact Or.inl ⟨by simp [a1], a2⟩
+            · cases a; exact Or.inl ⟨by simp, hm'⟩
+          · intro y hy hym
+            rcases List.mem_cons.mp hy with rfl | hy'
+            · exact c _ rfl
+            · exact b y hy' hym
+          · intro b hb; cases hb
+      | some b0 =>
+        simp only
+        by_cases hs : moreSpecific h b0 = true
+        · simp only [hs, ↓reduceIte]
+          obtain ⟨i1, i2⟩ := ih (some h)
+          refine ⟨?_, ?_⟩
+          · rw [i1]; simp
+          · intro x hx
+            obtain ⟨a, b, c⟩ := i2 x hx
+            have hlen := c h rfl
+            refine ⟨?_, ?_, ?_⟩
+            · rcases a with ⟨a1, a2⟩ | a
+              · exact Or.inl ⟨by simp [a1], a2⟩
+              · cases a; exact Or.inl ⟨by simp, hm'⟩
+            · intro y hy hym
+              rcases List.mem_cons.mp hy with rfl | hy'
+              · exact hlen
+              · exact b y hy' hym
+            · intro b1 hb1
+              cases hb1
+              have := moreSpecific_true_len h b0 hs
+              omega
+        · simp only [hs, Bool.false_eq_true, ↓reduceIte]
+          have hs' : moreSpecific h b0 = false := by simpa using hs
+          obtain ⟨i1, i2⟩ := ih (some b0)
+          refine ⟨?_, ?_⟩
+          · rw [i1]; simp
+          · intro x hx
+            obtain ⟨a, b, c⟩ := i2 x hx
+            have hlen := c b0 rfl
+            refine ⟨?_, ?_, ?_⟩
+            · rcases a with ⟨a1, a2⟩ | a
+              · exact Or.inl ⟨by simp [a1], a2⟩
+              · exact Or.inr a
+            · intro y hy hym
+              rcases List.mem_cons.mp hy with rfl | hy'
+              · have := moreSpecific_false_len y b0 hs'
+                omega
+              · exact b y hy' hym
+            · intro b1 hb1
+              cases hb1
+              exact hlen
+    · have hm' : wcMatches needle h = false := by simpa [wcMatches] using hm
+      simp only [hm, Bool.false_eq_true, ↓reduceIte]
+      obtain ⟨i1, i2⟩ := ih best
+      refine ⟨?_, ?_⟩
+      · rw [i1]; simp [hm']
+      · intro x hx
+        obtain ⟨a, b, c⟩ := i2 x hx
+        refine ⟨?_, ?_, c⟩
+        · rcases a with ⟨a1, a2⟩ | a
+          · exact Or.inl ⟨by simp [a1], a2⟩
+          · exact Or.inr a
+        · intro y hy hym
+          rcases List.mem_cons.mp hy with rfl | hy'
+          · rw [hm'] at hym; cases hym
+          · exact b y hy' hym
+
+/-- Two wildcard hosts matching the same needle and of the same length are the same host. -/
+theorem wcMatches_same_length_eq (needle a b : String)
+    (wa : isWildcarded a = true) (wb : isWildcarded b = true)
+    (ma : wcMatches needle a = true) (mb : wcMatches needle b = true) (hl : a.length = b.length) : a = b := by
+  unfold wcMatches hasSuffixStr cs mk at ma mb
+  simp only [String.toList_ofList] at ma mb
+  rw [List.isPrefixOf_iff_prefix] at ma mb
+  unfold isWildcarded hasPrefix at wa wb
+  have hla : a.toList.length = b.toList.length := by simp [String.length_toList, hl]
+  cases ha : a.toList with
+  | nil => rw [ha] at wa; simp at wa
+  | cons ca ta =>
+    cases hb : b.toList with
+    | nil => rw [hb] at wb; simp at wb
+    | cons cb tb =>
+      rw [ha] at ma wa hla
+      rw [hb] at mb wb hla
+      have hstar : ("*" : String).toList = ['*'] := by decide
+      rw [hstar] at wa wb
+      simp only [List.isPrefixOf_cons_cons, List.isPrefixOf_nil_left, Bool.and_true, beq_iff_eq] at wa wb
+      simp only [List.drop_succ_cons, List.drop_zero] at ma mb
+      have hlt : ta.reverse.length = tb.reverse.length := by simpa using hla
+      have := (List.prefix_of_prefix_length_le ma mb (by omega)).eq_of_length hlt
+      have ht : ta = tb := by simpa using this
+      apply String.ext
+      rw [ha, hb, ← wa, ← wb, ht]
+
+/-- **Most specific wins, whatever the enumeration order** (the wildcard index is a Go map):
+    the fold returns the same host for every permutation of the wildcard keys. -/
+theorem wildcardMatch_perm (needle : String) (l l' : List String) (hp : l.Perm l')
+    (hw : ∀ h ∈ l, isWildcarded h = true) :
+    wildcardMatch needle l none = wildcardMatch needle l' none := by
+  obtain ⟨n1, s1⟩ := wildcardMatch_inv needle l none
+  obtain ⟨n2, s2⟩ := wildcardMatch_inv needle l' none
+  cases r : wildcardMatch needle l none with
+  | none =>
+    cases r' : wildcardMatch needle l' none with
+    | none => rfl
+    | some x' =>
+      obtain ⟨a, _, _⟩ := s2 x' r'
+      rcases a with ⟨a1, a2⟩ | a
+      · have := (n1.mp r).2 x' (hp.mem_iff.mpr a1)
+        rw [this] at a2; cases a2
+      · cases a
+  | some x =>
+    obtain ⟨a, b, _⟩ := s1 x r
+    rcases a with ⟨a1, a2⟩ | a
+    · cases r' : wildcardMatch needle l' none with
+      | none =>
+        have := (n2.mp r').2 x (hp.mem_iff.mp a1)
+        rw [this] at a2; cases a2
+      | some x' =>
+        obtain ⟨a', b', _⟩ := s2 x' r'
+        rcases a' with ⟨a1', a2'⟩ | a'
+        · have h1 := b x' (hp.mem_iff.mpr a1') a2'
+          have h2 := b' x (hp.mem_iff.mp a1) a2
+          have := wcMatches_same_length_eq needle x x' (hw x a1) (hw x' (hp.mem_iff.mpr a1')) a2 a2' (by omega)
+          rw [this]
+        · cases a'
+    · cases a
+
+/-- The wildcard answer is a matching key and no matching key is longer. -/
+theorem wildcardMatch_longest (needle : String) (l : List String) (x : String)
+    (h : wildcardMatch needle l none = some x) :
+    x ∈ l ∧ wcMatches needle x = true ∧ ∀ y ∈ l, wcMatches needle y = true → y.length ≤ x.length := by
+  obtain ⟨a, b, _⟩ := (wildcardMatch_inv needle l none).2 x h
+  rcases a with ⟨a1, a2⟩ | a
+  · exact ⟨a1, a2, b⟩
+  · cases a
+
+/-- No answer only when no wildcard key matches. -/
+theorem wildcardMatch_none (needle : String) (l : List String) :
+    wildcardMatch needle l none = none ↔ ∀ y ∈ l, wcMatches needle y = false := by
+  rw [(wildcardMatch_inv needle l none).1]; simp
+
+/-- An exact key always beats every wildcard. -/
+theorem mostSpecific_exact_first (needle : String) (sp wc : List String)
+    (hn : isWildcarded needle = false) (h : needle ∈ sp) :
+    mostSpecificHostMatch needle sp wc = some needle := by
+  unfold mostSpecificHostMatch
+  simp [hn, h]
+
+/-- `MostSpecificHostMatch` is independent of the enumeration order of both maps. -/
+theorem mostSpecific_perm (needle : String) (sp sp' wc wc' : List String)
+    (hs : sp.Perm sp') (hwc : wc.Perm wc') (hw : ∀ h ∈ wc, isWildcarded h = true) :
+    mostSpecificHostMatch needle sp wc = mostSpecificHostMatch needle sp' wc' := by
+  unfold mostSpecificHostMatch
+  have c1 : wc.contains needle = wc'.contains needle := by
+    rw [Bool.eq_iff_iff, List.contains_iff_mem, List.contains_iff_mem]; exact hwc.mem_iff
+  have c2 : sp.contains needle = sp'.contains needle := by
+    rw [Bool.eq_iff_iff, List.contains_iff_mem, List.contains_iff_mem]; exact hs.mem_iff
+  rw [c1, c2, wildcardMatch_perm _ wc wc' hwc hw, wildcardMatch_perm needle wc wc' hwc hw]
+
+example : mostSpecificHostMatch "a.api.example.com" ["api.example.com"] ["*.com", "*.api.example.com", "*.example.com"]
+    = some "*.api.example.com" := by decide
+
 /-! ## Alternate host names -/
 
 /-- F-C12-3 (before the fix): for a service whose hostname is a parent of the proxy's DNS domain the
